@@ -59,12 +59,19 @@ func dropUnencoded(v Value, t types.Type) Value {
 
 func init() {
 	intrinsics["github.com/vmihailenco/msgpack.Marshal"] = func(r *Run, g *G, a []Value) (Value, action) {
-		args := a[0].(Slice)
-		n, _ := args.ln.(int64)
-		if n != 1 {
-			engineFail("msgpack.Marshal model: exactly one value expected")
+		var iv Iface
+		switch x := a[0].(type) {
+		case Iface:
+			iv = x
+		case Slice:
+			n, _ := x.ln.(int64)
+			if n != 1 {
+				engineFail("msgpack.Marshal model: exactly one value expected")
+			}
+			iv = x.a[0].(Iface)
+		default:
+			engineFail("msgpack.Marshal model: argument %T", a[0])
 		}
-		iv := args.a[0].(Iface)
 		t, v := iv.t, iv.v
 		if pt, ok := t.Underlying().(*types.Pointer); ok {
 			p := v.(Ptr)
